@@ -40,7 +40,7 @@ NAME = 'eqsim_ll'
 
 # ====================================================================== seams of this engine
 
-_IQ = {'fallback_calls': 0, 'capped': 0}
+_IQ = {'fallback_calls': 0, 'capped': 0, 'guess_capped': 0}
 
 
 def _install_iq_probe():
@@ -53,8 +53,10 @@ def _install_iq_probe():
     inner = cur
 
     def IQ_interpolation(*args, **kwargs):
-        if len(args) > 5 and args[5] is not None and callable(args[0]):
-            _IQ['fallback_calls'] += 1
+        if len(args) > 5 and callable(args[0]):
+            fallback = args[5] is not None
+            if fallback:
+                _IQ['fallback_calls'] += 1
             f = args[0]
             n = [0]
 
@@ -62,10 +64,11 @@ def _install_iq_probe():
                 n[0] += 1
                 return f(*a)
             out = inner(counted, *args[1:], **kwargs)
-            # flexsolve evaluates f once for the guess and once per iteration: 1 + maxiter evaluations
-            # mean the loop ran out (with checkiter=False the last iterate is returned as if converged)
+            # flexsolve evaluates f once for the first point and once per iteration: 1 + maxiter
+            # evaluations mean the loop ran out (with checkiter=False the last iterate is returned as
+            # if it had converged)
             if n[0] >= 1 + kwargs.get('maxiter', 50):
-                _IQ['capped'] += 1
+                _IQ['capped' if fallback else 'guess_capped'] += 1
             return out
         return inner(*args, **kwargs)
     IQ_interpolation._ll_probe = True
@@ -97,6 +100,26 @@ class PsatSeam:
             raise AttributeError(name)
         return getattr(self.inner, name)
 
+
+_SLE_REC = {'x': None}
+
+
+def _install_sle_recorder():
+    """Pass-through recorder on SLE._solve_x: 'the solubility it computed' of property C15 is the
+    value this method hands back to SLE.__call__ (class attribute rebound in this process only)."""
+    cur = eq.SLE._solve_x
+    if getattr(cur, '_ll_probe', False):
+        return
+
+    def _solve_x(self, T):
+        x = cur(self, T)
+        _SLE_REC['x'] = x
+        return x
+    _solve_x._ll_probe = True
+    eq.SLE._solve_x = _solve_x
+
+
+_install_sle_recorder()
 
 _own = {}
 
@@ -500,6 +523,7 @@ class PointWorld(BaseWorld):
         fault = ev.get('fault')
         _IQ['fallback_calls'] = 0
         _IQ['capped'] = 0
+        _IQ['guess_capped'] = 0
         with faults.armed(fault) as plan:
             try:
                 out = ('ok', f(), False)
@@ -516,13 +540,16 @@ class PointWorld(BaseWorld):
                 self.stats['probe:fault_fired_and_call_returned'] += 1
                 if _IQ['fallback_calls']:
                     self.stats['probe:fallback_IQ_interpolation_ran_and_returned'] += 1
+        if out[0] == 'ok' and _IQ['guess_capped']:
+            self.stats['probe:guess_stage_stopped_by_iteration_cap'] += 1
         if out[0] == 'ok' and _IQ['capped']:
             self.stats['probe:fallback_stopped_by_iteration_cap'] += 1
-            if 'C08-fallback-iteration-cap' in self.regions:
-                # listed known finding: the fallback IQ_interpolation used up maxiter=50 and handed
-                # back its last iterate; predicate observed on the execution itself, no verdict
-                self.stats['region:C08-fallback-iteration-cap'] += 1
-                out = ('capped', out[1], False)
+        if out[0] == 'ok' and (_IQ['capped'] or _IQ['guess_capped']) and 'C08-IQ-iteration-cap' in self.regions:
+            # listed known finding: an IQ_interpolation call of this operation (ideal-guess stage or
+            # fallback) used up maxiter=50 and its last iterate was used as if converged; the predicate
+            # is observed on the execution itself, the operation gets no verdict
+            self.stats['region:C08-IQ-iteration-cap'] += 1
+            out = ('capped', out[1], False)
         return out + (fired,)
 
     # ------------------------------------------------------------------ independent evaluation
@@ -688,7 +715,7 @@ class PointWorld(BaseWorld):
     def outcome(self, ev, r):
         """classify a ('ok'|'exc', value, injected, fired) call result that did not return a value"""
         if r[0] == 'capped':
-            return 'known-finding:fallback-iteration-cap'
+            return 'known-finding:IQ-iteration-cap'
         e = r[1]
         if r[3]:
             self.stats['faulted_call_raised'] += 1
@@ -944,7 +971,7 @@ SPLIT_TOL = 1e-4        # max |flow difference| / total feed, fresh twin and cac
 SCALE_TOL = 1e-4        # same measure between the k-scaled twin universe (divided by k) and the original
 TOP_TOL = 1e-12         # slack on the mass-fraction ordering
 SLE_RTOL = 1e-9         # "moves only the solute": other entries unchanged, solute total conserved
-SLE_BOUND_RTOL = 1e-4   # dissolved <= (1 + SLE_BOUND_RTOL) * min(present, solubility-implied)
+SLE_BOUND_RTOL = 1e-9   # dissolved <= (1 + SLE_BOUND_RTOL) * min(present, solvent * x / (1 - x))
 CALIBRATION_C15 = {
     'batch': 'filled in after calibration',
 }
@@ -1187,23 +1214,30 @@ class SplitWorld(BaseWorld):
         z = tot[idx] / tot[idx].sum() if idx else np.array([])
         return idx, z
 
+    def sle_situation(self, ev):
+        """Two aged-solver situations in which sle.py computes its solubility from stale bookkeeping
+        (SLE history independence is not promised by C15: counted, not judged)."""
+        if ev.get('solubility') is not None:
+            return None
+        sle = self.streams[ev['stream']].sle
+        rows = self.rows(self.streams[ev['stream']])
+        tot = rows['s'] + rows['l']
+        nonzero = frozenset(k for k in range(len(tot)) if tot[k] != 0)
+        idx = getattr(sle, '_index', None)
+        ks = self.pk.pos[ev['solute']]
+        if getattr(sle, '_nonzero', None) != nonzero or len(nonzero) < 2:
+            return None
+        if isinstance(idx, list) and ks in idx and getattr(sle, '_solute_gamma_index', None) != idx.index(ks):
+            return 'solute_switch_with_unchanged_chemicals'
+        if isinstance(idx, slice):
+            return 'computed_after_given_with_unchanged_chemicals'
+        return None
+
     def region_of(self, ev):
         """Named known-finding regions (predicates over (event, state))."""
-        if ev['op'] == 'sle' and ev.get('solubility') is None:
-            sle = self.streams[ev['stream']].sle
-            rows = self.rows(self.streams[ev['stream']])
-            tot = rows['s'] + rows['l']
-            nonzero = frozenset(k for k in range(len(tot)) if tot[k] != 0)
-            idx = getattr(sle, '_index', None)
-            ks = self.pk.pos[ev['solute']]
-            if (getattr(sle, '_nonzero', None) == nonzero and isinstance(idx, list) and ks in idx
-                    and len(idx) > 1 and getattr(sle, '_solute_gamma_index', None) != idx.index(ks)):
-                # computed-solubility call naming another solute than the solver's previous one while the
-                # set of chemicals present is unchanged (the solver keeps the previous solute's position)
-                return 'C15-sle-solute-switch'
-            return None
+        out = []
         if ev['op'] != 'lle':
-            return None
+            return out
         mem = self.memory(ev['stream'])
         method = self.cfg['method']
         if mem is not None:
@@ -1214,12 +1248,13 @@ class SplitWorld(BaseWorld):
                     and len(z) == len(mem['z']) and bool((mem['z'] - z < 1e-5).all())):
                 # probed lle call with cache reuse allowed, same chemicals, composition within the
                 # cache tolerance, at a temperature LOWER than the remembered one
-                return 'C15-lle-cache-lower-T'
-            if (method == 'pseudo equilibrium' and mem['two'] and same_chems and ev.get('check') == 'fresh'):
-                # default method with a remembered two-phase K (it starts from that K and never updates
-                # it): the fresh-twin comparison is the clause this can influence
-                return 'C15-lle-default-method-warm-start'
-        return None
+                out.append('C15-lle-cache-lower-T')
+            if method == 'pseudo equilibrium' and ev.get('check') in ('fresh', 'cache'):
+                # default method on a solver that remembers ANY earlier solution: it starts from the
+                # remembered K and never updates it (or caches the one-phase verdict such a start gave),
+                # so both history clauses (fresh twin, cache vs no cache) can be influenced
+                out.append('C15-lle-default-method-warm-start')
+        return out
 
     def gen(self, rngs):
         r = rngs.args
@@ -1236,9 +1271,9 @@ class SplitWorld(BaseWorld):
                 continue
             if op in ('lle', 'sle') and self.cfg['faults'] and rngs.fault.random() < 0.3:
                 ev['fault'] = self.gen_fault(rngs.fault)
-            reg = self.region_of(ev)
-            if reg and reg in self.regions:
-                self.stats['region:' + reg] += 1
+            hit = [g for g in self.region_of(ev) if g in self.regions]
+            if hit:
+                self.stats['region:' + hit[0]] += 1
                 continue
             if op == 'lle':
                 reg = ('C15-lle-default-method-activity' if self.cfg['method'] == 'pseudo equilibrium'
@@ -1414,7 +1449,21 @@ class SplitWorld(BaseWorld):
             return self.do_sle(ev)
 
     # ---------------------------------------------------------------- LLE
+    def two_liquids(self, rows):
+        """two liquid PHASES: both rows hold material and their compositions differ (two portions of
+        one and the same liquid - the trivial solution of the optimisers - are one phase)"""
+        L, l = rows['L'], rows['l']
+        F = L.sum() + l.sum()
+        if not (L.sum() > 1e-12 * F and l.sum() > 1e-12 * F):
+            return False        # (a residue of 1e-16 of the feed left behind by the arithmetic is not a phase)
+        if float(np.abs(L / L.sum() - l / l.sum()).max()) <= 1e-6:
+            self.stats['trivial_split_of_one_liquid'] += 1
+            return False
+        return True
+
     def split_distance(self, a, b, F, allow_swap):
+        if not self.two_liquids(a) and not self.two_liquids(b):
+            return 0.0, False      # one liquid in both: how it is apportioned to the labels is immaterial
         d = max(float(np.abs(a['L'] - b['L']).max()), float(np.abs(a['l'] - b['l']).max())) / F
         if allow_swap:
             d2 = max(float(np.abs(a['L'] - b['l']).max()), float(np.abs(a['l'] - b['L']).max())) / F
@@ -1472,7 +1521,7 @@ class SplitWorld(BaseWorld):
             return ['unsupported', type(e).__name__]
         after = self.rows(ms)
         detail['after'] = {k: v.tolist() for k, v in after.items()}
-        two = bool(after['L'].sum() > 0 and after['l'].sum() > 0)
+        two = self.two_liquids(after)
         self.stats['lle_two_phase' if two else 'lle_one_phase'] += 1
         self.stats[f'lle_history_{min(hist, 4)}'] += 1
         if r[2]:
@@ -1621,7 +1670,12 @@ class SplitWorld(BaseWorld):
         before = self.rows(ms)
         T0, P0 = float(ms.T), float(ms.P)
         hist = len([e for e in self.log[name] if e[0] == 'sle'])
+        situation = self.sle_situation(ev)
+        if situation:
+            self.stats['stat:sle_situation:' + situation] += 1
+        _SLE_REC['x'] = None
         r = self.call(ev, lambda: self.sle_call(ms, ev))
+        rec = _SLE_REC['x']
         self.log[name].append(('sle', dict(ev)))
         detail = {'event': ev, 'package': pk.ids, 'before': {k: v.tolist() for k, v in before.items()},
                   'history': [e[1] if e[0] == 'sle' else list(e) for e in self.log[name][:-1]]}
@@ -1680,25 +1734,38 @@ class SplitWorld(BaseWorld):
                                       f'of {present!r} put in the liquid', detail)
         elif not pure:
             solvent = float(after['l'].sum() - after['l'][ks])
-            x = given if given is not None else self.solubility_at(after, ev['solute'], ev['T'])
-            with np.errstate(all='ignore'):
-                if x >= 1 or not math.isfinite(x):
-                    cap = present
-                elif x <= 0:
-                    cap = 0.0
-                else:
-                    cap = min(present, solvent * x / (1 - x))
-            self.stats['judged:sle-bound'] += 1
-            detail['solubility'] = x
-            detail['cap'] = cap
-            if cap > 0:
-                self.track('sle_bound:' + ('given' if given is not None else 'computed'),
-                           max(0.0, dissolved / cap - 1.0))
-            if dissolved > cap * (1 + SLE_BOUND_RTOL) + SLE_RTOL * scale:
-                self.fail('sle-bound',
-                          f'sle({ev["solute"]!r}, T={ev["T"]}, solubility={given}) dissolved {dissolved!r} of '
-                          f'{present!r}; the {"given" if given is not None else "computed"} solubility '
-                          f'{x!r} allows {cap!r} in {solvent!r} of solvent', detail)
+            # "the solubility it computed (or was given)": the value SLE._solve_x handed back during
+            # this call (pass-through recorder) or the argument
+            x = given if given is not None else rec
+            if x is None:
+                self.stats['sle_no_solubility_computed'] += 1
+            else:
+                x = float(x)
+                with np.errstate(all='ignore'):
+                    if x >= 1 or not math.isfinite(x):
+                        cap = present
+                    elif x <= 0:
+                        cap = 0.0
+                    else:
+                        cap = min(present, solvent * x / (1 - x))
+                self.stats['judged:sle-bound'] += 1
+                detail['solubility'] = x
+                detail['cap'] = cap
+                if cap > 0:
+                    self.track('sle_bound:' + ('given' if given is not None else 'computed'),
+                               max(0.0, dissolved / cap - 1.0))
+                if dissolved > cap * (1 + SLE_BOUND_RTOL) + SLE_RTOL * scale:
+                    self.fail('sle-bound',
+                              f'sle({ev["solute"]!r}, T={ev["T"]}, solubility={given}) dissolved {dissolved!r} of '
+                              f'{present!r}; the {"given" if given is not None else "computed"} solubility '
+                              f'{x!r} allows {cap!r} in {solvent!r} of solvent', detail)
+                if given is None and solvent > 0:
+                    # statistic: the eutectic solubility re-evaluated by the harness at the returned liquid
+                    xi = self.solubility_at(after, ev['solute'], ev['T'])
+                    if math.isfinite(xi) and 0 < xi < 1 and dissolved > min(present, solvent * xi / (1 - xi)) * 1.01:
+                        self.stats['stat:sle_dissolved_exceeds_solubility_reevaluated_by_harness'] += 1
+                        if situation:
+                            self.stats['stat:...of_which_in_situation:' + situation] += 1
         # history independence is NOT promised for SLE by the property: statistic only
         twin = self.fresh_from(before, T0, P0)
         try:
